@@ -333,16 +333,30 @@ def reconnect_during_send_round(port, size=12 * 1024 * 1024):
             pass
 
 
-def loopback_round(port, size, pacing, via_protocol, close_after_send=False):
-    """a passive HSMS endpoint on the loopback interface sends `size` bytes to a real socket that reads with the given pacing"""
+def loopback_round(port, size, pacing, via_protocol, close_after_send=False, active=False):
+    """an HSMS endpoint (passive, or active = it connects to the harness) on the loopback interface sends `size` bytes to a real socket
+    that reads with the given pacing"""
     tcpmod.TcpConnection.select_timeout = 0.02
-    settings = secsgem.hsms.HsmsSettings(address="127.0.0.1", port=port, connect_mode=secsgem.hsms.HsmsConnectMode.PASSIVE, device_id=0)
+    mode = secsgem.hsms.HsmsConnectMode.ACTIVE if active else secsgem.hsms.HsmsConnectMode.PASSIVE
+    settings = secsgem.hsms.HsmsSettings(address="127.0.0.1", port=port, connect_mode=mode, device_id=0)
     proto = secsgem.hsms.HsmsProtocol(settings)
-    obs = {"size": size, "pacing": pacing, "via_protocol": via_protocol, "closed_right_after_send": close_after_send}
+    obs = {"size": size, "pacing": pacing, "via_protocol": via_protocol, "closed_right_after_send": close_after_send, "active_endpoint": active}
+    listener = None
+    if active:
+        listener = socket.socket(socket.AF_INET, socket.SOCK_STREAM)
+        listener.setsockopt(socket.SOL_SOCKET, socket.SO_REUSEADDR, 1)
+        listener.setsockopt(socket.SOL_SOCKET, socket.SO_RCVBUF, 4096)      # inherited by the accepted socket
+        listener.bind(("127.0.0.1", port))
+        listener.listen(1)
+        listener.settimeout(10)
     proto.enable()
     try:
         deadline = time.monotonic() + 5
         while True:
+            if active:
+                sock, _addr = listener.accept()
+                listener.close()
+                break
             try:
                 sock = socket.socket(socket.AF_INET, socket.SOCK_STREAM)
                 sock.setsockopt(socket.SOL_SOCKET, socket.SO_RCVBUF, 4096)
@@ -357,7 +371,10 @@ def loopback_round(port, size, pacing, via_protocol, close_after_send=False):
         while proto.connection_state.current.value != 2 and time.monotonic() < deadline:
             time.sleep(0.005)
         conn = proto._connection
-        conn._sock.setsockopt(socket.SOL_SOCKET, socket.SO_SNDBUF, 4096)
+        if not active:
+            conn._sock.setsockopt(socket.SOL_SOCKET, socket.SO_SNDBUF, 4096)
+        # (active round: the kernel's own send buffer - the send returns while most of the message is still in it)
+        sent_evt = threading.Event()
         payload = bytes((i * 7 + (i >> 8)) & 0xFF for i in range(size))
         message = None
         if via_protocol:
@@ -369,6 +386,16 @@ def loopback_round(port, size, pacing, via_protocol, close_after_send=False):
             size = len(payload)
             obs["size"] = size
         received = bytearray()
+        if active:
+            # the active endpoint opens with its Select.req (14 bytes, SType 1): read it before the payload is sent
+            sock.settimeout(5)
+            head = bytearray()
+            while len(head) < 14:
+                part = sock.recv(14 - len(head))
+                if not part:
+                    break
+                head.extend(part)
+            obs["select_req_first"] = len(head) == 14 and head[:4] == b"\x00\x00\x00\x0a" and head[9] == 1
         expected_len = len(payload)
         done = threading.Event()
 
@@ -381,7 +408,11 @@ def loopback_round(port, size, pacing, via_protocol, close_after_send=False):
             sock.settimeout(5)
             try:
                 while len(received) < expected_len:
-                    if close_after_send and not resume.is_set() and len(received) >= expected_len - HOLD_BACK:
+                    if close_after_send and active and sent_evt.is_set() and not resume.is_set():
+                        # the peer pauses as soon as the send has returned: what it has not read is in the sender's kernel
+                        hold.set()
+                        resume.wait(5)
+                    if close_after_send and not active and not resume.is_set() and len(received) >= expected_len - HOLD_BACK:
                         # the peer stops reading shortly before the end: the send still completes (the tail fits the socket buffers),
                         # part of it is still in the sender's kernel buffer when the endpoint closes
                         hold.set()
@@ -402,6 +433,7 @@ def loopback_round(port, size, pacing, via_protocol, close_after_send=False):
         ok = common.with_deadline((lambda: proto.send_message(message)) if via_protocol else (lambda: conn.send_data(payload)), 60.0)
         obs["reported"] = bool(ok)
         obs["send_seconds"] = round(time.monotonic() - t0, 2)
+        sent_evt.set()
         if close_after_send:
             # the endpoint closes while the peer has not drained what the kernel still holds (the peer pauses), then the peer reads on until EOF
             hold.wait(5)
@@ -527,6 +559,16 @@ def run(tier, replay=None):
     if swap is not None and not (swap["send_returned"] and swap["second_connection_got"] == 0 and swap["first_is_a_prefix"] and (swap["reported"] is not True or swap["first_got_all"])):
         report.violation({"kind": "counterexample", "what": "the connection ended and the next one was established while a message was on its way: bytes of the message reached the new connection, "
                           "or success was reported although the connection it was started on did not get all of it", **swap}, True, tag="swap")
+    # the same with an ACTIVE endpoint (its own socket set-up): a big message to a peer with a small receive window that pauses while the endpoint closes
+    for size in ([1 << 20] if tier == "quick" else [60000, 1 << 20, 3 << 20]):
+        k += 1
+        obs = common.guarded(lambda size=size, k=k: loopback_round(common.own_port(k % 10), size, "small_reads", False, True, True), f"loopback: active endpoint, {size} bytes, closed right after the send", twedged, 120.0)
+        if obs is None:
+            continue
+        rounds.append(obs)
+        if obs["reported"] and not obs["identical"]:
+            report.violation({"kind": "counterexample", "what": "send_data() of an ACTIVE endpoint reported success, the endpoint was closed, and the peer reading until EOF did not receive the bytes complete", **obs}, True, tag="tcpactive")
+            break
     closed_obs = common.guarded(send_on_closed_socket_case, "send_message right after the socket was closed", twedged, 60.0)
     if closed_obs is not None and not (closed_obs.get("send_returned") and closed_obs.get("reported") is False):
         report.violation({"kind": "counterexample", "what": "a send on a connection whose socket had just been closed did not come back with failure", **closed_obs}, True, tag="closedsocket")
